@@ -760,6 +760,118 @@ def run_config(c):  # noqa: PLR0915, C901
     return {'observations': obs}
 
 
+def run_notify(c):  # noqa: PLR0915
+    """provider -> subscriber path: Subscribe requests with an Accept-Encoding variant each, then a report and the end message
+    through the real subscriptions manager and the real (sync) SoapClient with a recording connection"""
+    import os
+    import uuid
+    from decimal import Decimal
+
+    import sdc11073.definitions_sdc  # noqa: F401
+    from sdc11073.provider.providerimpl import provider_components_sync_factory
+    from sdc11073.pysoap.soapclient import SoapClient
+    from sdc11073.xml_types import eventing_types as evt_types
+    from sdc11073.xml_types import pm_qnames as pm
+    from sdc11073.xml_types.addressing_types import HeaderInformationBlock
+    from tests.mockstuff import MockWsDiscovery, SomeDevice
+    sent = []
+
+    class RecConn:
+        def __init__(self, netloc):
+            self.netloc, self.sock = netloc, object()
+
+        def request(self, method, path, body=None, headers=None):
+            sent.append({'netloc': self.netloc, 'path': path, 'headers': dict(headers), 'body': body})
+
+        def getresponse(self):
+            return http_client_decode(b'HTTP/1.1 202 Accepted\r\nContent-Length: 0\r\n\r\n')
+
+        def close(self):
+            pass
+
+    class RecClient(SoapClient):
+        def connect(self):
+            self._has_connection_error = False
+            self._http_connection = RecConn(self._netloc)
+            self.sock_name = ('127.0.0.1', 1)
+
+    class Srv:
+        def __init__(self):
+            import threading
+            self.dispatcher = PathElementRegistry()
+            self.server_port, self.base_url = 9200, 'http://127.0.0.1:9200/'
+            self.started_evt = threading.Event()
+            self.started_evt.set()
+
+        def stop(self):
+            pass
+
+    repo = os.environ.get('VERIF_REPO', '/repo')
+    pc = provider_components_sync_factory()
+    pc.soap_client_class = RecClient
+    prov = SomeDevice.from_mdib_file(MockWsDiscovery('127.0.0.1'), uuid.UUID(int=0xabe), repo + '/tests/70041_MDIB_Final.xml',
+                                     components=pc, role_provider_components=None, chunk_size=c.get('chunk', 0))
+    if c.get('enabled') is not None:
+        prov.set_used_compression(*c['enabled'])
+    out_tr = {'subscribers': [], 'errors': []}
+    try:
+        prov.start_all(start_rtsample_loop=False, shared_http_server=Srv())
+        actions = prov.mdib.sdc_definitions.Actions
+        nsh = prov.mdib.sdc_definitions.data_model.ns_helper
+        for k, acc in enumerate(c['accepts']):
+            sub = evt_types.Subscribe()
+            sub.Delivery.Mode = f'{nsh.WSE.namespace}/DeliveryModes/Push'
+            sub.Delivery.NotifyTo.Address = f'http://127.0.0.1:{9300 + k}/sink'
+            sub.EndTo = None
+            sub.Expires = 600
+            sub.set_filter(actions.EpisodicMetricReport)
+            inf = HeaderInformationBlock(action=evt_types.EventingActions.Subscribe, addr_to='http://127.0.0.1:9200/x')
+            data = prov.msg_factory.mk_soap_message(inf, payload=sub).serialize()
+            headers = {'Host': '127.0.0.1:9200'}
+            if acc is not None:
+                headers['Accept-Encoding'] = acc
+            status, _reason, _resp = prov._msg_converter.do_post(headers, '/' + prov.path_prefix + '/StateEvent', ('127.0.0.1', 1), data)
+            out_tr['subscribers'].append({'accept': acc, 'netloc': f'127.0.0.1:{9300 + k}', 'subscribe_status': status, 'notifications': []})
+        handle = next(d.Handle for d in prov.mdib.descriptions.NODETYPE.get(pm.NumericMetricDescriptor, []))
+        for v in (1, 2):
+            with prov.mdib.metric_state_transaction() as mgr:
+                st = mgr.get_state(handle)
+                if st.MetricValue is None:
+                    st.mk_metric_value()
+                st.MetricValue.Value = Decimal(v)
+        prov.stop_all(send_subscription_end=True)
+    except Exception as exc:  # noqa: BLE001
+        import traceback
+        out_tr['errors'].append(f'{type(exc).__name__}: {exc}'[:200] + ' | ' + traceback.format_exc()[-300:])
+    finally:
+        try:
+            for reg in prov._sco_operations_registries.values():
+                reg.stop_worker()
+        except Exception:  # noqa: BLE001
+            pass
+    by_netloc = {sd['netloc']: sd for sd in out_tr['subscribers']}
+    for m in sent:
+        sd = by_netloc.get(m['netloc'])
+        if sd is None:
+            continue
+        h = {k.lower(): v for k, v in m['headers'].items()}
+        body = m['body'] or b''
+        note = {'ce': h.get('content-encoding'), 'te': h.get('transfer-encoding')}
+        try:
+            if h.get('transfer-encoding') == 'chunked':
+                body = HTTPReader._read_dechunk(CapStream(body))
+            if note['ce']:
+                body = CompressionHandler.decompress_payload(note['ce'], body)
+            from lxml import etree as _et
+            root = _et.fromstring(body)
+            note['document'] = _et.QName(root.tag).localname
+            note['action'] = (root.findtext('.//{http://www.w3.org/2005/08/addressing}Action') or '').rsplit('/', 1)[-1]
+        except Exception as exc:  # noqa: BLE001
+            note['decode_error'] = f'{type(exc).__name__}: {exc}'[:120]
+        sd['notifications'].append(note)
+    return out_tr
+
+
 def run_codec(c):
     data = bytes.fromhex(c['data'])
     alg = c['alg']
@@ -794,7 +906,7 @@ def run_codec(c):
 
 RUNNERS = {'mk_chunks': run_mk_chunks, 'reader': run_reader, 'response': run_response,
            'parse_header': run_parse_header, 'server_choice': run_server_choice,
-           'client_choice': run_client_choice, 'e2e': run_e2e, 'raw': run_raw, 'codec': run_codec, 'conn': run_conn, 'config': run_config}
+           'client_choice': run_client_choice, 'e2e': run_e2e, 'raw': run_raw, 'codec': run_codec, 'conn': run_conn, 'config': run_config, 'notify': run_notify}
 for key, fn in RUNNERS.items():
     if key in req:
         res = []
